@@ -11,6 +11,10 @@ CONSTANTS
   Modes = {"run", "master"}
   Conts = {TRUE, FALSE}
   Forks = {TRUE, FALSE}
+  Starts = {0}
+  TreeStart = TRUE
+  Ends = {0}
+  Aheads = {0}
   MaxFaults = 3
   FaultBudgets = {0, 1, 2, 3}
   MaxRestarts = 1
